@@ -25,6 +25,7 @@ import Sigc.Basic
   * `member_method_trait.h`    `member_method_is_const`                      → `MQ.isConst`
   * `adaptors/hide.h`, `bind.h`, `retype.h` (one hop)                        → `adaptArgs`
   * `signal.h`                 the three emitters' call sites                → `castBackTo`, `siteArg`
+                                `signal_with_accumulator::connect` (same `slot_type`) → `Route.connectAccum`
   * `signal_connect.h`         exact deduction of `R(A...)` from both arguments → `sigConnExact`
 
   The C++ rules used (my formalisation for this finite universe, validated against g++ and clang++
@@ -35,9 +36,13 @@ namespace Sigc.Types
 
 /-! ## The type universe -/
 
-/-- base (object) types: `int long double bool`, `struct A`, `struct B : A`, `A*`, `B*`, `const A*` -/
+/-- base (object) types: `int long double bool`, `struct A`, `struct B : A`, `A*`, `B*`, `const A*`, and three
+    types whose *explicit* and *implicit* convertibility to an arithmetic type differ:
+    `enum class E : int` (scoped enumeration: `static_cast` to and from every arithmetic type, no implicit
+    conversion at all), `struct Xb { explicit operator bool() const; }`,
+    `struct Xd { explicit operator double() const; }`. -/
 inductive Base where
-  | int | long | double | bool | clsA | clsB | ptrA | ptrB | cptrA
+  | int | long | double | bool | clsA | clsB | ptrA | ptrB | cptrA | enumE | clsXb | clsXd
   deriving DecidableEq, Repr, Inhabited
 
 /-- declared parameter shapes `T`, `T&`, `const T&`, `T&&` -/
@@ -71,6 +76,11 @@ def Base.isPtr : Base → Bool
   | .ptrA | .ptrB | .cptrA => true
   | _ => false
 
+/-- the types of the universe that take part in no implicit conversion except the identity -/
+def Base.isExplicitOnly : Base → Bool
+  | .enumE | .clsXb | .clsXd => true
+  | _ => false
+
 /-- pointer conversions [conv.ptr], [conv.qual]: `B*→A*`, `B*→const A*`, `A*→const A*` -/
 def ptrConv : Base → Base → Bool
   | .ptrB, .ptrA => true
@@ -80,10 +90,29 @@ def ptrConv : Base → Base → Bool
 
 /-- is there an implicit conversion sequence from an expression of (cv-unqualified) type `s` to `t`
     (copy-initialisation `t x = e;`)?  identity, arithmetic conversions (incl. narrowing and to `bool`),
-    boolean conversion of pointers, derived-to-base (slicing copy), pointer conversions. -/
+    boolean conversion of pointers, derived-to-base (slicing copy), pointer conversions.
+    A scoped enumeration and the classes with an `explicit` conversion function convert implicitly to nothing
+    but themselves, and nothing converts implicitly to them ([conv.integral] is about *unscoped* enumerations,
+    [class.conv.fct]/2: an explicit conversion function is only considered for direct-initialisation). -/
 def conv (s t : Base) : Bool :=
   s == t || (s.isArith && t.isArith) || (s.isPtr && t == .bool) || (s == .clsB && t == .clsA)
     || ptrConv s t
+
+/-- conversions that exist **only explicitly** (`static_cast<t>(e)` / `t x(e);` is well-formed, `t x = e;` is not):
+    scoped enumeration ↔ every arithmetic type ([expr.static.cast]/9,10), and the explicit conversion functions
+    `Xb → bool`, `Xd → double` — to exactly the declared type ([over.match.conv]: for direct-initialisation an
+    explicit conversion function is a candidate only if it yields the target type itself). -/
+def onlyExplicit (s t : Base) : Bool :=
+  (s == .enumE && t.isArith) || (s.isArith && t == .enumE) || (s == .clsXb && t == .bool)
+    || (s == .clsXd && t == .double)
+
+/-- the explicit conversion goes through a conversion *function* of a class (then it can also initialise a
+    reference to the target type directly, [over.match.ref]) -/
+def byExplicitFunction (s t : Base) : Bool :=
+  (s == .clsXb && t == .bool) || (s == .clsXd && t == .double)
+
+/-- explicit convertibility `static_cast<t>(e)`: every implicit conversion, plus the explicit-only ones -/
+def explConv (s t : Base) : Bool := conv s t || onlyExplicit s t
 
 /-- `t1` is the same type as `t2` or a base class of it -/
 def sameOrBaseOf (t1 t2 : Base) : Bool :=
@@ -212,7 +241,10 @@ def retExpr (r : Param) : ExprTy :=
 
 /-- `call_it` is `T_return call_it(...) { return functor(...); }` ([stmt.return]): a `void` signature accepts
     only a `void` result (a value operand in a function returning `void` is ill-formed — the library does
-    **not** discard results); otherwise the return object is copy-initialised from the call expression. -/
+    **not** discard results); otherwise the return object is **copy**-initialised from the call expression:
+    implicit convertibility (`binds`, hence `conv`) decides, an explicit-only conversion (`onlyExplicit`: a scoped
+    enumeration or a class with an `explicit operator bool` returned as `int` / `bool`) does not qualify — there is
+    no cast in `call_it`. -/
 def retOk (fr : Ret) (sr : Ret) : Bool :=
   match sr, fr with
   | none, none => true
@@ -288,7 +320,9 @@ def boundExpr (b : Base) : ExprTy := ⟨b, false, .lvalue⟩
 /-- `static_cast<P>(e)` [expr.static.cast]: direct-initialisation; or a base→derived downcast without dropping
     const (`B&` from a modifiable lvalue `A`, `const B&` from any lvalue `A`, `B&&` from any non-const `A`
     expression, `B*` from a prvalue-converted `A*`); or a non-const lvalue to an rvalue reference of a
-    reference-compatible type. -/
+    reference-compatible type; or an explicit-only conversion to the *object* type `P` (scoped enumeration ↔
+    arithmetic, explicit conversion function); a reference `const P&` / `P&&` is reached explicitly only through
+    a conversion function (the temporary a reference would otherwise bind to is *copy*-initialised). -/
 def castOk (p : Param) (e : ExprTy) : Bool :=
   binds p e
   || (p.base == .clsB && e.base == .clsA &&
@@ -297,6 +331,8 @@ def castOk (p : Param) (e : ExprTy) : Bool :=
          (p.shape == .rref && !e.const)))
   || (p.base == .ptrB && e.base == .ptrA && p.shape == .val)
   || (p.shape == .rref && e.cat == .lvalue && !e.const && sameOrBaseOf p.base e.base)
+  || (p.shape == .val && onlyExplicit e.base p.base)
+  || ((p.shape == .cref || p.shape == .rref) && byExplicitFunction e.base p.base)
 
 /-- the expression `static_cast<P>(…)` -/
 def castExpr (p : Param) : ExprTy := retExpr p
@@ -338,6 +374,7 @@ inductive Route where
   | slotInit      -- `sigc::slot<Sig> s = functor;`
   | connect       -- `sigc::signal<Sig> sig; sig.connect(functor);`
   | signalConnect -- `sigc::signal_connect(sig, &f)` / `(sig, obj, &C::m)`
+  | connectAccum  -- `sigc::signal<Sig>::accumulated<Acc> sig; sig.connect(functor);` (the same `slot<Sig>`)
   deriving DecidableEq, Repr, Inhabited
 
 /-- `signal_connect` deduces `T_return, T_arg...` from the signal *and* from the function pointer: both must
@@ -356,6 +393,7 @@ def acceptsRoute (r : Route) (sig : Sig) (ad : Adaptor) (fn : Fn) : Bool :=
   | .slotInit => accepts sig ad fn
   | .connect => accepts sig ad fn
   | .signalConnect => ad == .none && sigConnExact sig fn && accepts sig .none fn
+  | .connectAccum => accepts sig ad fn
 
 /-! ## C20: the function type of the erased call pointer -/
 
@@ -427,12 +465,13 @@ def siteOk (s : CallSite) (a : Param) : Bool := binds (take a) (siteArg s a)
 def parseBase : String → Option Base
   | "int" => some .int | "long" => some .long | "double" => some .double | "bool" => some .bool
   | "A" => some .clsA | "B" => some .clsB | "pA" => some .ptrA | "pB" => some .ptrB
-  | "pcA" => some .cptrA
+  | "pcA" => some .cptrA | "E" => some .enumE | "Xb" => some .clsXb | "Xd" => some .clsXd
   | _ => none
 
 def showBase : Base → String
   | .int => "int" | .long => "long" | .double => "double" | .bool => "bool"
   | .clsA => "A" | .clsB => "B" | .ptrA => "pA" | .ptrB => "pB" | .cptrA => "pcA"
+  | .enumE => "E" | .clsXb => "Xb" | .clsXd => "Xd"
 
 def parseShape : String → Option Shape
   | "v" => some .val | "l" => some .lref | "c" => some .cref | "r" => some .rref
@@ -513,6 +552,7 @@ def parseAdaptor (s : String) : Option Adaptor :=
 
 def parseRoute : String → Option Route
   | "slot" => some .slotInit | "connect" => some .connect | "sigconn" => some .signalConnect
+  | "accum" => some .connectAccum
   | _ => none
 
 def parseSite : String → Option CallSite
@@ -551,6 +591,7 @@ def boolStr (b : Bool) : String := if b then "true" else "false"
 
     * `probe <route> <adaptor> <kind> R=<ret> S=<params|-> FR=<ret> FP=<params|->` → `accept` | `reject <why>`
     * `binds <param> <expr>` / `cast <param> <expr>` → `true` | `false`
+    * `conv <base> <base>` → `implicit` | `explicit` | `none`
     * `passed <param>` → expression token; `chain <param> <expr>` → expression token | `none`
     * `c20 <site> R=<ret> S=<params|->` → `produced=<fnty> castback=<fnty> equal=<bool> applies=<bool> argsok=<bool>` -/
 def processLine (line : String) : String :=
@@ -571,6 +612,10 @@ def processLine (line : String) : String :=
   | ["cast", p, e] =>
     match parseParam p, parseExpr e with
     | some p, some e => boolStr (castOk p e)
+    | _, _ => "error parse"
+  | ["conv", s, t] =>
+    match parseBase s, parseBase t with
+    | some s, some t => if conv s t then "implicit" else if onlyExplicit s t then "explicit" else "none"
     | _, _ => "error parse"
   | ["passed", p] =>
     match parseParam p with
